@@ -2,7 +2,7 @@
    segmentation.  Statements only; every proof is `exact <lemma>` into
    Proofs/Wire_lemmas.v, followed by Print Assumptions. *)
 From Coq Require Import List NArith Ascii Bool.
-From SV Require Import Lib.Bytes Model.Wire Proofs.Wire_lemmas Gen.Consts.
+From SV Require Import Lib.Bytes Model.Wire Proofs.Wire_lemmas Gen.Consts Model.WireStart Proofs.WireStart_lemmas.
 Import ListNotations.
 Local Open Scope N_scope.
 
@@ -143,3 +143,64 @@ Example c07_ex_link :
   out = [] /\ length wire = 19%nat /\ length sent = 2%nat /\
   fst (fst (rx_feed_all ([], 0) [firstn 3 wire; skipn 3 wire])) = sent.
 Proof. vm_compute. repeat split. Qed.
+
+(* (9) The sending side of the start-up (Model/WireStart.v).  server.main puts the
+       synchronisation string on descriptor 1 through sys.stdout (BufferedWriter.flush
+       repeats the raw write until nothing is left) before the multiplexer writes
+       anything.  Whatever the descriptor takes per write (script: any positive or
+       zero entries, clamped to 1..len; at least as many entries as the string has
+       bytes, so that the fuel cannot run out), the client's stream-level recogniser
+       accepts what is on descriptor 1 and hands on exactly the multiplexer's bytes. *)
+Theorem c07_server_start : forall script ops,
+  (length server_sync <= length script)%nat ->
+  hs_spec client_sync (server_start server_sync script ops) = (true, snd (fst (tx_run ops))).
+Proof.
+  intros script ops H. unfold server_start.
+  rewrite (flush_all_complete script server_sync H). cbn [fst].
+  exact (c07_sync_literals _).
+Qed.
+Print Assumptions c07_server_start.
+
+(* (9b) ... end to end: for every write script on the server's descriptor 1, every
+        sequence of sends and partial flushes of its multiplexer and every cutting of the
+        resulting byte stream into reads on the client, the handshake succeeds and
+        the messages dispatched are a prefix of the messages sent, in order — all of
+        them once the server's queue is empty. *)
+Theorem c07_server_start_end_to_end : forall script ops chunks,
+  (length server_sync <= length script)%nat ->
+  Forall nonempty chunks ->
+  concat chunks = server_start server_sync script ops ->
+  fst (hs_run client_sync chunks) = true /\
+  let '(out, wire, sent) := tx_run ops in
+  let '(fs, st, s) := rx_feed_all ([], 0) (snd (hs_run client_sync chunks)) in
+  s = RxOk /\ prefix fs sent /\ (out = [] -> fs = sent /\ st = ([], 0)).
+Proof.
+  intros script ops chunks Hlen Hne Hc.
+  destruct (c07_handshake chunks Hne) as [Hok Hrest].
+  rewrite Hc, (c07_server_start script ops Hlen) in Hok, Hrest. cbn [fst snd] in Hok, Hrest.
+  split; [exact Hok|].
+  pose proof (c07_link_fifo ops (snd (hs_run client_sync chunks))) as Hl.
+  destruct (tx_run ops) as [[out wire] sent]. cbn [fst snd] in Hrest.
+  exact (Hl Hrest).
+Qed.
+Print Assumptions c07_server_start_end_to_end.
+
+(* non-vacuity: one byte per write, a message sent and flushed three bytes at a time *)
+Example c07_server_start_example :
+  let script := repeat 1 14 in
+  let ops := [TxSend (mkFrame 0 16897 [ascii_of_N 99]); TxFlush (Some 3); TxFlush (Some 3); TxFlush (Some 3)] in
+  (length server_sync <= length script)%nat /\
+  server_start server_sync script ops = server_sync ++ takeN 9 (header 0 16897 1 ++ [ascii_of_N 99]).
+Proof. vm_compute. split; [repeat constructor | reflexivity]. Qed.
+
+(* (10) Had the string been written with ONE raw write whose result is ignored, a
+        descriptor taking fewer than all 14 bytes would make the client reject the
+        stream (or hunt for the string inside the messages): what the property's
+        "all partial-write patterns on the sending side" rules out. *)
+Theorem c07_sync_single_write_refuted : exists k rest,
+  hs_spec client_sync (write_once k server_sync ++ rest) <> (true, rest).
+Proof.
+  exists 5, (header 0 16897 7 ++ map ascii_of_N [99; 104; 105; 99; 107; 101; 110]).
+  vm_compute. discriminate.
+Qed.
+Print Assumptions c07_sync_single_write_refuted.
